@@ -30,6 +30,11 @@ def OSErr.name : OSErr → String
   | .fileExists => "FileExistsError"
   | .other => "OSError"
 
+/-- the file system refuses names longer than NAME_MAX bytes -/
+def nameTooLong (n : String) : Bool := n.utf8ByteSize > 255
+
+def Path.tooLong (p : Path) : Bool := p.any nameTooLong
+
 namespace FS
 
 def get (fs : FS) (p : Path) : Option Entry :=
